@@ -188,6 +188,8 @@ def run(sc, choices=None):
         for f in frames:
             if f.opcode in (8, 9, 10) and not f.rsv and (not f.fin or (len(f.payload) > 125 and f.opcode != 8)):
                 raise InvalidScenario("fragmented / oversized control frame through recv_frame")
+    if sc.get("prior"):
+        cfg["prior"] = dict(sc["prior"])  # the object was used before: an earlier connection was lost mid-frame / mid-message
     out = run_recv(int(sc.get("seed", 1)), stream, cfg, res)
     last = frames[-1]
     b0 = (last.fin << 7) | (last.rsv << 4) | last.opcode
@@ -244,3 +246,32 @@ def _illegal_class(frames):
 
 def sample_view(sc, r):
     return {"api": sc["api"], "state": sc.get("state"), "frames": [[f.get("fin"), f.get("rsv", 0), f["op"], len(f["hex"]) // 2] for f in sc["frames"]]}
+
+
+# ---- object history: the same scenarios on a WebSocket object whose earlier connection was lost in the middle of a frame or
+# of a fragmented message (state of the earlier connection must not reach this one)
+from ..recvdrv import PRIOR_LOSSES as _PRIOR_LOSSES, gen_prior as _gen_prior  # noqa: E402
+_gen0, _plan0, _expand0 = gen, plan, expand
+
+
+def gen(rng):
+    sc = _gen0(rng)
+    pr = _gen_prior(rng)
+    if pr:
+        sc["prior"] = pr
+    return sc
+
+
+def plan(tier, seed):
+    return _plan0(tier, seed) + [{"kind": "reused", "count": 120 if tier == "quick" else 3000}]
+
+
+def expand(item, seed):
+    if item.get("kind") == "reused":
+        for i in range(item["count"]):
+            sc = _gen0(random.Random(derive_seed(seed, ID + "R", i)))
+            sc["prior"] = dict(_PRIOR_LOSSES[i % len(_PRIOR_LOSSES)])
+            yield sc
+        return
+    for sc in _expand0(item, seed):
+        yield sc
